@@ -56,9 +56,9 @@ SnapOK(e) ==
   \* between configurations is not observable and not part of any property)
   /\ s.len >= s.wc * Blocks(cfg'.sb) /\ s.cap >= s.len
 
-\* the return value is one of the allowed ones, and an error's Display text is the documented one
-RetOK(e) == /\ e.ret \in last'.allowed
-            /\ ((Has(e, "rettext") /\ "err" \in DOMAIN e.ret /\ NoHugeField(e.ret)) => e.rettext = ErrorText(e.ret))
+\* the return value is one of the allowed ones
+\* (the Display text of an error is recorded in the trace but not constrained: no property speaks about wording)
+RetOK(e) == e.ret \in last'.allowed
 
 (***************************************************************************)
 (* C17: a call the specification says needs no more working space than the *)
@@ -73,7 +73,7 @@ RetOK(e) == /\ e.ret \in last'.allowed
 HugeShard == 400000
 AllocOK(e) ==
   (Has(e, "abytes") /\ ~last'.may_alloc /\ cfg'.sb >= 1024) =>
-     /\ (cfg'.sb >= HugeShard => e.abytes < cfg'.sb)
+     /\ (cfg'.sb >= HugeShard => (IF Has(e, "amax") THEN e.amax ELSE e.abytes) < cfg'.sb)   \* largest single allocation
      /\ (Has(e, "ptr_same") => e.ptr_same)
 CapacityOK(e) ==
   \* the held working space never shrinks below what the history needed
